@@ -19,7 +19,11 @@ TARGETS = ('x86_64-sysv', 'aarch64', 'riscv64')
 # statement grammar (histories of stmt.c's label/block bookkeeping)
 
 
-def stmt_trees(maxnodes):
+ALLOC_LEAVES = ['g(@);', 'return @;', 'goto end;', 'L1: g(@);', 'goto L1;', 'die();', '{ T va; g(va[0]); }', '{ int vb[n]; g(vb[1]); }',
+                '{ int *cl = (int[]){@, n}; g(cl[0]); }', '{ T2 vc; g(vc[0][1]); }']
+
+
+def stmt_trees(maxnodes, leaves=None):
     """Yield (text, nodes) for every statement tree with <= maxnodes nodes."""
     memo = {}
 
@@ -29,7 +33,7 @@ def stmt_trees(maxnodes):
             return memo[key]
         out = []
         if n == 1:
-            out += ['g(@);', 'return @;', 'goto end;', ';', 'L1: g(@);', 'goto L1;', 'n = v ? n : @;', 'die();']
+            out += leaves or ['g(@);', 'return @;', 'goto end;', ';', 'L1: g(@);', 'goto L1;', 'n = v ? n : @;', 'die();']
             if loop or sw:
                 out.append('break;')
             if loop:
@@ -100,6 +104,23 @@ def stmt_program(body):
         return str(k[0])
     body = re.sub('@', num, body)
     return 'int g(int);\n_Noreturn void die(void);\nint f(int n, int v) {\n\tint i;\n\t%s\nend:\n\treturn n;\n}\n' % body
+
+
+def alloc_program(body, tail):
+    """statement trees whose leaves declare objects that need an alloc (a variable length array whose size was computed at a typedef,
+    one whose size is computed at the declaration, a compound literal): in reachable and in unreachable places, with (tail) and without
+    a labelled statement after the tree"""
+    k = [0]
+
+    def num(m):
+        k[0] += 1
+        return str(k[0])
+    body = re.sub('@', num, body)
+    pre = 'int g(int);\n_Noreturn void die(void);\n'
+    if tail:
+        return pre + 'int f(int n, int v) {\n\tint i;\n\ttypedef int T[n];\n\ttypedef T T2[2];\n\tT first;\n\tg(first[0]);\n\t%s\nend:\n\treturn n;\n}\n' % body
+    body = re.sub(r'return \d+;', 'return;', body).replace('goto end;', 'return;')
+    return pre + 'void f(int n, int v) {\n\tint i;\n\ttypedef int T[n];\n\ttypedef T T2[2];\n\t%s\n}\n' % body
 
 
 DATA_UNIT = r'''
@@ -234,6 +255,9 @@ def main(chk):
     maxn = 4 if chk.quick else 5
     for body, n in stmt_trees(maxn):
         push('stmt/%d' % n, stmt_program(body))
+    for body, n in stmt_trees(3 if chk.quick else 4, ALLOC_LEAVES):
+        push('alloc/%d' % n, alloc_program(body, True))
+        push('alloc/%d' % n, alloc_program(body, False))
     for e, k in expr_trees(2 if chk.quick else 3):
         push('expr/%d' % k, stmt_program('n = ' + e + '; if (' + e + ') g(@); while (' + e + ') n = ' + e + ';'))
     # (iv) single-token mutants of the corpus that still compile
